@@ -29,6 +29,13 @@ Clauses (names used in MONITOR messages):
                a cache the caller built keeps the caller's barrier (`insts`: barrier identity as the constructors
                left it); concurrent readers of one key spread over such instances: at most one database query in
                flight per promised barrier class, all readers receive the same result (`ctake … i=a+b`)
+  single-loader (round 5, `cmix`) concurrent readers of SEVERAL keys, each possibly going on to a second key: no reader
+               panics, every reader of a key whose query ran receives exactly what THAT query returned (not nil,
+               not another key's row, not a foreign object), a reader of a key no query ran for was served from that
+               key's entry; at most one query in flight per key and promised barrier
+  released     (round 5) no operation panics inside the cache layer unless a user-supplied function of that very
+               operation panicked (`db=2` / `db=3`: the query function panics; printed `panicked`, nothing cached,
+               and the key stays readable afterwards — sequentially and for concurrent readers)
 -/
 import GoZero.C06.Model
 import GoZero.C06.Instances
@@ -332,6 +339,43 @@ def instClauses (nodes : Nat) (kinds : List InstKind) (obsKinds : List String) (
         else none
       | _, _, _, _ => none
     impl ++ own ++ pairs
+
+/-! ### round 5: concurrent readers of SEVERAL keys (`cmix`) -/
+
+/-- a read result as the harness prints it (`val:r:<id>:<v>:<a>` / `notfound`), for a cached value. -/
+def servedToken : CVal → Option String
+  | .ph => some "notfound"
+  | .row a b c => some s!"val:r:{a}:{b}:{c}"
+  | _ => none
+
+/-- clause `single-loader` for concurrent readers of several keys through one or more barriers, on what the
+implementation was seen to do: `reads` = (reader, key, result token) of every read, `loads` = per key what the
+database queries of this operation RETURNED (the user-supplied query function's own return value, observed by
+the harness), `prev` = the cache dump before the operation.
+  * at most one query in flight per key and promised barrier;
+  * no reader panics;
+  * every reader of a key whose query ran receives exactly what that query returned — not nil, not the result of
+    another key's query, not a foreign object;
+  * a reader of a key no query ran for was served from the cache entry of THAT key. -/
+def cmixClauses (c : Cfg) (prev : Dump) (inflight : Nat) (reads : List (Nat × CKey × String))
+    (loads : List (CKey × String)) : List String :=
+  (if inflight > 1 then [s!"single-loader: more than one database query in flight for one key among instances that promise one barrier"] else [])
+  ++ reads.filterMap fun (r, k, res) =>
+    if res.startsWith "PANIC" then
+      some s!"single-loader: concurrent reader {r} of key {repr k} panicked instead of receiving the result of its flight: {res}"
+    else match loads.find? (·.1 = k) with
+      | some (_, l) =>
+        if res ≠ l then some s!"single-loader: concurrent reader {r} of key {repr k} received {res}, the query of its flight returned {l}"
+        else none
+      | none =>
+        match (prev.find (c.slot k)).bind (fun e => servedToken e.val) with
+        | some tok => if res ≠ tok then some s!"single-loader: concurrent reader {r} of key {repr k} received {res} although no query ran and the cache holds {tok}" else none
+        | none => some s!"single-loader: concurrent reader {r} of key {repr k} received {res} although no query ran for the key and no live entry was cached"
+
+/-- the dump after the part of a concurrent mixed read that concerns `slots`: those slots as in `cur`, all others
+as in `prev`. -/
+def mixDump (prev cur : Dump) (slots : List Slot) : Dump :=
+  prev.filter (fun o => !slots.contains (o.node, o.key)) ++ cur.filter (fun o => slots.contains (o.node, o.key))
 
 /-- number of promised barrier classes among the instances `via` reads go through. -/
 def classesOf (kinds : List InstKind) (via : List Nat) : Nat :=
